@@ -389,7 +389,7 @@ pub fn generate(prop: &str, tier: &str, r: &mut Rng, out: &mut Vec<String>) -> G
             GenInfo { rule: "seeded random messages x payload source kind {none, blocking, async} x payload contents (0 B to 70 KB; MiBs in the thorough tier) delivered in random fragments with not-ready results (async; ignored by blocking) and Interrupted results (blocking) x consumer {Read, AsyncRead} x sequences of 0-39 read-buffer sizes from 1 B to 64 KiB (then 4096); the drained bytes and the way the stream ends are compared with header+attributes ++ payload and with the model; non-trivial = distinct case lines".into(), exhaustive: false }
         }
         "C20" => {
-            let n = if thorough { 300_000 } else { 3_000 };
+            let n = if thorough { 60_000 } else { 3_000 };
             let lim = Limits { max_depth: if thorough { 5 } else { 3 }, boundary: true };
             for _ in 0..n {
                 let mut rr = r.fork();
@@ -550,7 +550,7 @@ pub fn generate(prop: &str, tier: &str, r: &mut Rng, out: &mut Vec<String>) -> G
             }
         }
         "C01" | "C03" => {
-            let n = if thorough { 300_000 } else { 3_000 };
+            let n = if thorough { 60_000 } else { 3_000 };
             let lim = Limits { max_depth: if thorough { 6 } else { 4 }, boundary: true };
             for m in boundary_msgs() {
                 if prop == "C03" {
